@@ -98,7 +98,10 @@ class Rule:
         key = (v["rule"], v["file"], v["construct"])
         for old in self.violations:
             if (old["rule"], old["file"], old["construct"]) == key:
-                old.setdefault("also", []).append({"line": line, "message": msg})
+                also = old.setdefault("also", [])
+                if len(also) < 5:
+                    also.append({"line": line, "message": msg})
+                old["also_count"] = old.get("also_count", 0) + 1
                 return
         self.violations.append(v)
 
@@ -167,6 +170,10 @@ def finish(report: Report, seed: int) -> int:
             (knownhits if k else viol).append((v, k))
     vdir = os.path.join(EVIDENCE_DIR, "violations")
     lines = []
+    if os.path.isdir(vdir):
+        for fn in os.listdir(vdir):
+            if fn.startswith(pid + "-"):
+                os.unlink(os.path.join(vdir, fn))
     if viol:
         os.makedirs(vdir, exist_ok=True)
     for i, (v, _) in enumerate(viol):
